@@ -365,7 +365,11 @@ Definition check_eval_case (compiled : ctree expr) (s : env) (fm : list fimpl) (
   let tie :=
       match model, e1 with
       | Ok m, IOk t => (flat_map (fun r => cmp_trees2 fuel (cmp inexact) r r m t) rs ++ params_equal fuel m t)%list
-      | res, IErr cls => [if String.eqb (err_class res) cls then 0%nat else 1%nat]
+      | res, IErr cls =>
+          (* (a substitution the model refuses because a value would be CAPTURED by a sum's dummy is what the code refuses
+             with its own error: "tried to replace a symbol that is used as iterator") *)
+          [if String.eqb (err_class res) cls
+              || (String.eqb (err_class res) "capture" && String.eqb cls "BartiqCompilationError") then 0%nat else 1%nat]
       | _, IOk _ => [1%nat]
       end in
   let spec :=
